@@ -196,6 +196,12 @@ def expected_kind(tree_index, sel):
 
 def run(tier):
     chk = Check("C03", tier)
+    import time as _time
+    _t0 = [_time.time()]
+    _legs = {}
+    def lap(name):
+        _legs[name] = round(_time.time() - _t0[0], 1)
+        _t0[0] = _time.time()
     chk.proofs(extra_files=["Corr/K03.v", "Props/C03Serve.v"])   # [agentH]
     found = False
     rng = chk.rng
@@ -246,6 +252,8 @@ def run(tier):
         for first in (d + b"\r\n", b"GET " + d + b" HTTP/1.0\r\n\r\n", d + b"\t$\r\n"):
             for target in (d + b"\t$\r\n", d + b"\t+\r\n", d + b"\r\n", b"GET " + d + b" HTTP/1.0\r\n\r\n", d + b"\t!\r\n"):
                 corpus.append(([find_req(first)], find_req(target)))
+    if tier == "quick":
+        corpus = rng.sample(corpus, 36)          # thorough runs the whole product
     corpus += [([find_req(b"/md/new\r\n")], find_req(b"/md\r\n")),
               ([find_req(b"/dir1\r\n")], find_req(b"/dir1/.cache.pygopherd.dir\r\n")),
               ([find_req(b"/md\r\n"), find_req(b"/mail.mbox\r\n")], find_req(b"/mail.mbox|/MBOX-MESSAGE/2\r\n"))]
@@ -255,7 +263,7 @@ def run(tier):
     http_probes = [pi for pi, (d, _) in zip(probes, BARE_PROBES) if d.startswith((b"GET", b"HEAD"))]
     per_block = header_idx if tier != "quick" else header_idx[::4]      # quick: one request of every header block
     for hi in per_block:
-        picks = http_probes if tier != "quick" else rng.sample(http_probes, 3)
+        picks = http_probes if tier != "quick" else rng.sample(http_probes, 2)
         for pi in picks + [rng.choice(probes)]:
             corpus.append(([hi], pi))
     for pi in probes:                                   # several header blocks in a row, then the probe
@@ -268,12 +276,12 @@ def run(tier):
     corpus = [(h, tg, "default") for h, tg in corpus]
     typed_plain = [i for i in typed_idx if not reqs[i][1] and reqs[i][0].endswith(b"\r\n") and not reqs[i][0].startswith((b"GET", b"HEAD", b"gopher.example "))
                    and b"\t" not in reqs[i][0]]
-    for hi in (typed_idx if tier != "quick" else typed_plain + rng.sample(typed_idx, 12)):
-        for pi in rng.sample(typed_idx, 2) + [rng.choice(typed_plain), rng.choice(probes)]:
+    for hi in (typed_idx if tier != "quick" else typed_plain + rng.sample(typed_idx, 8)):
+        for pi in (rng.sample(typed_idx, 2) if tier != "quick" else [rng.choice(typed_idx)]) + [rng.choice(typed_plain), rng.choice(probes)]:
             corpus.append(([hi], pi, "full"))
     for _ in range(20 if tier == "quick" else 200):
         corpus.append(([rng.choice(typed_idx) for _ in range(rng.randrange(2, 5))], rng.choice(typed_idx + benign), "full"))
-    nhist = len(corpus) + (80 if tier == "quick" else 800)
+    nhist = len(corpus) + (60 if tier == "quick" else 800)
     pool = benign + header_idx + probes + typed_idx
     for n_h in range(nhist):
         k = rng.randrange(1, 7)
@@ -295,12 +303,15 @@ def run(tier):
     for k in range(0, len(longs), 12):
         long_jobs.append({"op": "world", "tree": tree, "config": trees.SITE_CONFIG,
                           "requests": [{"data": gen.lat(d), "tls": tl} for d, tl, _, _ in longs[k:k + 12]]})
+    lap("proofs+generation")
     res = impl_run_parallel(jobs + long_jobs)
+    lap("request stream + long lines")
     for r in res:
         if not r["ok"]:
             raise RuntimeError(r["err"] + "\n" + r.get("tb", ""))
     long_outs = [o for r in res[2:] for o in r["res"]["results"]]
     iso_res = impl_run_isolated(iso_jobs)
+    lap("isolated histories (%d processes)" % len(iso_jobs))
     for r in iso_res:
         if not r["ok"]:
             raise RuntimeError(r["err"] + "\n" + r.get("tb", ""))
@@ -430,6 +441,7 @@ def run(tier):
                            "history_latin1": [singles[i]["data"] for i in h], "request_latin1": singles[target]["data"],
                            "tls": singles[target]["tls"], "handlers": hcfg, "alone_head": b[:300].decode("latin-1"),
                            "after_history_head": a[:300].decode("latin-1"), "tree": tree}, tag=htag)
+    lap("judging")
     # ---- I/O faults: every protocol must turn them into ONE well-formed error reply ----
     ftree = [e for e in tree if not e["path"].startswith("odd/")] + [
         {"path": "locked", "kind": "dir"}, {"path": "locked/in.txt", "data": "x\n"},
@@ -481,6 +493,7 @@ def run(tier):
                            "request_latin1": freqs[fmeta.index((proto, sel, gp))]["data"], "response_latin1": o["out"][:300],
                            "log": o["log"][-4:], "tree": ftree}, tag=f"io-fault-reply:{proto}:{gp or 'plain'}")
 
+    lap("io faults")
     # ---- live leg: the real ThreadingTCPServer and GopherRequestHandler on a TCP socket, real (TLS) clients; a handler list
     # with the handlers that hand the connection's descriptor to a child process.  What the client receives is judged by
     # the same validators, and must be what the in-memory transport delivered for the same request ----
@@ -608,6 +621,7 @@ def run(tier):
                                   tag=f"transport-dependence:{tname}:{CLS.get(m.group(1) if m else None) or 'none'}")
     tindex, sizes = tindex_save, sizes_save
 
+    lap("live leg")
     # ---- descriptor soak: hundreds of distinct requests under a tight descriptor limit, then the first ones again ----
     stree = [e for e in tree if not e["path"].startswith("odd/")]
     sreqs = []
@@ -656,6 +670,7 @@ def run(tier):
                             "read-only requests; each reply validated by independent per-protocol parsers; non-trivial = not a benign existing path")
     # ---- [agentH] correspondence K03: response bytes of every protocol class vs Model/Respond.v, and the
     # Coq validators of Model/Wellformed.v vs validators.py on every reply of the request stream above ----
+    lap("soak")
     k_mism, k_err, k_det = run_k03(chk, tier)
     v_items = [(CLS.get((re.search(r"\[(\w+)/", " ".join(o["log"])) or [None, None])[1]), o["out"].encode("latin-1"))
                for ci in (0, 1) for o in res[ci]["res"]["results"]]
@@ -665,6 +680,8 @@ def run(tier):
         chk.correspondence_broken("K03 (Model/Respond.v, Model/Wellformed.v vs protocols/*.py and validators.py)",
                                   {"mismatches": k_mism + v_mism, "error": (k_err or "") + (v_err or ""), "details": chk.coverage["k03"]}, found)
     # ---- [agentH] end ----
+    lap("K03 + validators in Coq")
+    chk.coverage["seconds_per_leg"] = _legs
     chk.finish_proofs(found)
     chk.assumptions += ["wall-clock bound is runtime behaviour (measured per request, limit 5 s)"]
     return chk.finish("proof")
